@@ -377,7 +377,8 @@ func runC18(c *lib.Ctx) {
 	}
 	var text, native, ops, simple []*c18Case
 	text, native, ops, simple = r.sweepCases()
-	nSweep := len(text) + len(native) + len(ops) + len(simple)
+	multi, scan := r.sweepMulti()
+	nSweep := len(text) + len(native) + len(ops) + len(simple) + len(multi) + len(scan)
 	// composite, seeded
 	r.g.text = true
 	for i := 0; i < c.Scale(300, 40000); i++ {
@@ -393,6 +394,14 @@ func runC18(c *lib.Ctx) {
 	for i := 0; i < c.Scale(2000, 400000); i++ {
 		simple = append(simple, &c18Case{Family: "simplify", GoVal: strings.Join(r.g.goValue(3).wire(), " ")})
 	}
+	for i := 0; i < c.Scale(600, 60000); i++ {
+		multi = append(multi, r.randomMultiCase())
+	}
+	for i := 0; i < c.Scale(300, 40000); i++ {
+		scan = append(scan, &c18Case{Family: "scan", Doc: strings.Join(r.g.doc(5).wire(), " "), Via: r.g.r.Intn(6), Strict: r.g.r.Bool()})
+	}
+	r.runMulti(multi)
+	r.runScan(scan)
 	r.runText(text)
 	r.runNative(native)
 	r.runOps(ops)
@@ -406,7 +415,7 @@ func runC18(c *lib.Ctx) {
 	c.Ev.Coverage["traces_validated_against_impl"] = r.total
 	c.Ev.Coverage["agreements"] = r.agree
 	c.Ev.Coverage["sweep_cases"] = nSweep
-	c.Ev.Coverage["composite_cases"] = len(text) + len(native) + len(ops) + len(simple) - nSweep
+	c.Ev.Coverage["composite_cases"] = len(text) + len(native) + len(ops) + len(simple) + len(multi) + len(scan) - nSweep
 	avoided := []string{}
 	if r.g.avoid.bigInt {
 		avoided = append(avoided, "integers ojg holds as json.Number")
@@ -435,6 +444,58 @@ func runC18(c *lib.Ctx) {
 	sort.Strings(avoided)
 	c.Ev.Coverage["composite_avoids"] = avoided
 	c.Ev.Coverage["rule"] = "cases = (document, write options) / (document) / (document, op sequence <= 6) / (Go value); sweep = single-cause cells (one leaf kind x placement x writer mode; one op x one or two step path x small document), seed independent; non-trivial = path length >= 2 or container nesting >= 2; distinct by case text"
+}
+
+// randomMultiCase: 1..5 documents through one of the entry points that hand out bags.
+func (r *c18Run) randomMultiCase() *c18Case {
+	g := r.g
+	cs := &c18Case{Family: "multi"}
+	type ent struct {
+		name   string
+		forms  []int
+		multi  bool
+		strict bool // takes the strict argument
+		chanOK bool
+		onlyContainers bool
+	}
+	ents := []ent{
+		{"json-parse", []int{0, 1, 2}, true, true, true, false},
+		{"json-parse", []int{0, 1, 2}, true, true, true, false},
+		{"discover-json", []int{0, 1, 2}, true, true, true, true},
+		{"each-bag", []int{2, 3}, true, false, false, false},
+		{"bag-read", []int{2}, false, false, false, false},
+		{"send-read", []int{2}, false, false, false, false},
+		{"init-read", []int{2}, false, false, false, false},
+		{"load-bag", []int{3}, false, false, false, false},
+		{"make-bag", []int{1}, false, false, false, false},
+	}
+	e := ents[g.r.Intn(len(ents))]
+	cs.Entry = e.name
+	cs.Form = e.forms[g.r.Intn(len(e.forms))]
+	cs.Strict = e.strict && g.r.Bool()
+	cs.Channel = e.chanOK && g.r.Chance(40)
+	if g.r.Chance(30) {
+		cs.Layout = "i2"
+	}
+	n := 1
+	if e.multi {
+		n = 1 + g.r.Intn(5)
+	}
+	for i := 0; i < n; i++ {
+		var d *jv
+		if e.onlyContainers {
+			d = g.tameDoc(1 + g.r.Intn(4))
+		} else if g.r.Chance(80) {
+			d = g.container(1 + g.r.Intn(4))
+		} else {
+			d = g.scalar()
+		}
+		cs.Docs = append(cs.Docs, strings.Join(d.wire(), " "))
+		cs.Seps = append(cs.Seps, []string{" ", "\n", "\n\n", "\t", "  "}[g.r.Intn(5)])
+	}
+	cs.Seps[0] = []string{"", " ", "\n"}[g.r.Intn(3)]
+	cs.Seps = append(cs.Seps, []string{"", "\n", " "}[g.r.Intn(3)])
+	return cs
 }
 
 func (r *c18Run) randomTextCase() *c18Case {
@@ -479,6 +540,10 @@ func (r *c18Run) replay() {
 		r.runOps([]*c18Case{cs})
 	case "simplify":
 		r.runSimplify([]*c18Case{cs})
+	case "multi":
+		r.runMulti([]*c18Case{cs})
+	case "scan":
+		r.runScan([]*c18Case{cs})
 	}
 	fmt.Printf("replay family=%s recorded signature: %s\n", cs.Family, rec.Signature)
 	for _, v := range r.c.Violations {
